@@ -257,6 +257,10 @@ func init() {
 							}
 						}()
 						kind = fmt.Sprint(kindOf(rscp.VerifNewEmpty(d, 0)))
+						// every call yields a value of its own: writing into one must not show in another
+						if aliased(rscp.VerifNewEmpty(d, 4), rscp.VerifNewEmpty(d, 4)) {
+							kind = "aliased"
+						}
 					}()
 				}
 				return fmt.Sprintf("name=%s isa=%s len=%d kind=%s js=%s back=%s", hx([]byte(d.String())), b01(d.IsADataType()), rscp.VerifLength(d), kind, hx([]byte(s)), back)
@@ -382,4 +386,19 @@ func init() {
 			return strings.ToLower(f[0])
 		},
 	}
+}
+
+// aliased: do two values handed out by newEmpty share memory? (pointers: same address; byte slices: same backing array)
+func aliased(a, b interface{}) bool {
+	va, vb := reflect.ValueOf(a), reflect.ValueOf(b)
+	if !va.IsValid() || !vb.IsValid() || va.Kind() != vb.Kind() {
+		return false
+	}
+	switch va.Kind() {
+	case reflect.Ptr:
+		return !va.IsNil() && va.Pointer() == vb.Pointer()
+	case reflect.Slice:
+		return va.Len() > 0 && vb.Len() > 0 && va.Pointer() == vb.Pointer()
+	}
+	return false
 }
